@@ -21,6 +21,7 @@ use core::ptr;
 use core::sync::atomic::AtomicPtr;
 #[cfg(arc_swap_verif)]
 use crate::verif::AtomicPtr;
+use core::sync::atomic::fence;
 use core::sync::atomic::Ordering::*;
 
 use super::sealed::{CaS, InnerStrategy, Protected};
@@ -62,6 +63,13 @@ impl<T: RefCnt> HybridProtection<T> {
         } else {
             // It changed in the meantime, but the debt for the previous pointer was already paid
             // for by someone else, so we are fine using it.
+            //
+            // But the one who paid it might have done so for a *newer* object living on the same
+            // address (the original one got released and the address reused before we managed to
+            // put our debt in). We have not acquired the content of that one by any of the loads
+            // above and the failed compare-exchange in pay is only Relaxed. The payer did
+            // Release the slot, so synchronize with that.
+            fence(Acquire);
             Some(unsafe { Self::new(ptr, None) })
         }
     }
